@@ -31,7 +31,7 @@ FULL = ["January", "February", "March", "April", "May", "June", "July", "August"
 
 
 def exhaustive(tier):
-    return ("12 months x {int, decimal strings with 0-3 leading zeros, all 2^3 case variants of the abbreviation, "
+    return ("12 months x {int, decimal strings with 0-3, 40, 4299-4301 and 6000 leading zeros, all 2^3 case variants of the abbreviation, "
             "all 2^n case variants of the full name} x 3 middlewares x 9 ordered pairs x {copy, in-place}")
 
 
@@ -93,7 +93,7 @@ def case_variants(word):
 
 def month_spellings(m):
     yield m
-    for z in range(4):
+    for z in (0, 1, 2, 3, 40, 4299, 4300, 4301, 6000):      # "decimal strings with leading zeros" has no length bound
         yield "0" * z + str(m)
     yield from case_variants(ABBR[m - 1])
     if len(FULL[m - 1]) > 3:      # "may" == "May": its variants are already produced above
